@@ -4,7 +4,7 @@ sys.path.insert(0, os.path.dirname(__file__))
 from _seed import seed_uw
 SRC = "C20_calc.c"
 COMMON = dict(src=SRC, env=["vp_alloc.c", "vp_libc.c"], units=["hwloc/bitmap.c", "hwloc/traversal.c", "hwloc/topology.c"], unwind=8, checks="safety", object_bits=13, timeout=1700,
-              unwindset=dict({"vp_mini_build_at.%d" % k: 24 for k in range(12)}, **{"strlen.0": 24, "strcpy.0": 24, "level_table.0": 6, "strcmp.0": 8, "strncmp.0": 8, "strcasecmp.0": 8, "hwloc__type_match.0": 24, "strchr.0": 34, "strcspn.0": 34, "strcspn.1": 6, "vp_strto.0": 4, "vp_strto.1": 8, "strncasecmp.0": 8, "vsnprintf.0": 34}),
+              unwindset=dict({"vp_mini_build_at.%d" % k: 24 for k in range(12)}, **{"strlen.0": 24, "strcpy.0": 24, "level_table.0": 6, "one.0": 12, "one.1": 12, "one.2": 12, "one.3": 12, "one.4": 12, "one.5": 12, "one.6": 12, "one.7": 12, "one.8": 12, "strcmp.0": 8, "strncmp.0": 8, "strcasecmp.0": 8, "hwloc__type_match.0": 24, "strchr.0": 34, "strcspn.0": 34, "strcspn.1": 6, "vp_strto.0": 4, "vp_strto.1": 8, "strncasecmp.0": 8, "vsnprintf.0": 34}),
               stubs=["hwloc_bitmap_asprintf (diagnostics inside hwloc_calc_append_set): empty", "fprintf/printf diagnostics: verbose = -1", "topology: the hand-linked 9-object topology of vp_mini.h (accepted by hwloc_topology_check natively)", "strtol/strcspn/snprintf: env/vp_libc.c models"],
               assumptions=["allocation never fails", "topology: Machine, 2 Packages, PUs with os_index 0,1,2,5, one NUMA node per package"])
 EVAL = ["hwloc_calc_process_location_as_set", "hwloc_calc_process_location", "hwloc_calc_append_object_range", "hwloc_calc_parse_range", "hwloc_calc_parse_level", "hwloc_calc_parse_level_size", "hwloc_calc_get_nbobjs_inside_sets_by_depth", "hwloc_calc_get_obj_inside_sets_by_depth", "hwloc_calc_append_set", "hwloc_calc_process_location_set_cb", "hwloc_type_sscanf"]
@@ -17,13 +17,13 @@ for ty in range(3):
     for tp in range(5):
         for op in (0, 1):
             tiers = {"thorough": {}}
-            if (ty, tp, op) in QUICK: tiers["quick"] = {}
+            if (ty, tp, op) in QUICK: tiers["quick"] = {"defines": {"DN": 4, "DVALS": "{0,1,3,5}"}, "bounds_note": "digits from {0,1,3,5}"} if tp in (1, 3) else {}
             HARNESSES.append(dict(COMMON, name="loc_%s_%s%s" % (TN[ty], TP[tp], "_op" if op else ""), entry="h_location", defines={"TYPE": ty, "TPL": tp, "OPP": op}, encoded=EVAL, tiers=tiers,
-                                  bounds="location '%s%s:<%s>' with symbolic digits 0..5 / keyword, logical or physical indexing symbolic, arbitrary previous accumulator sets" % ("<~|x|^>" if op else "", TN[ty], TP[tp]), cost=30))
+                                  bounds="location '%s%s:<%s>' with digits 0..5 (quick tier: {0,1,3,5} for two-digit templates) / keyword chosen symbolically among concretely built texts, logical or physical indexing symbolic, arbitrary previous accumulator sets" % ("<~|x|^>" if op else "", TN[ty], TP[tp]), cost=30))
 for tp in (5, 6, 7):
     for op in (0, 1):
         tiers = {"thorough": {}}
-        if op == 0 or tp == 6: tiers["quick"] = {}
+        if op == 0 or tp == 6: tiers["quick"] = {"defines": {"DN": 4, "DVALS": "{0,1,3,5}"}} if tp == 5 else {}
         HARNESSES.append(dict(COMMON, name="loc_%s%s" % (TP[tp], "_op" if op else ""), entry="h_location", defines={"TYPE": 0, "TPL": tp, "OPP": op}, encoded=EVAL, tiers=tiers,
                               bounds="location template %s with symbolic digits, logical/physical symbolic, arbitrary accumulators" % TP[tp], cost=30))
 OUTSIDE = ["process-level behaviour of the tools: exit statuses, option parsing in main(), output formats, --largest/-I/-N/-H consistency", "lstopo exports = library exports, hwloc-diff | hwloc-patch pipeline (library side: C16)", "hwloc-distrib (arithmetic: C09 distrib)",
